@@ -8,13 +8,15 @@ import (
 
 // names sort as ReadDir/Glob return them, so the name decides the position.
 func nameAt(pos string, i int) string {
+	// unusual but legal file names for some indices: blanks, printf verbs, CJK, glob meta characters
+	deco := []string{"", "", "", " sp ace", "_%d%s%v", "_中文", "_[b]{c}"}[i%7]
 	switch pos {
 	case "first":
-		return fmt.Sprintf("a%02d_first.pb.go", i)
+		return fmt.Sprintf("a%02d_first%s.pb.go", i, deco)
 	case "last":
-		return fmt.Sprintf("z%02d_last.pb.go", i)
+		return fmt.Sprintf("z%02d_last%s.pb.go", i, deco)
 	}
-	return fmt.Sprintf("m%02d_mid.pb.go", i)
+	return fmt.Sprintf("m%02d_mid%s.pb.go", i, deco)
 }
 
 func healthyEntry(r *detsim.Rand, name string, annotated bool) Entry {
@@ -31,7 +33,35 @@ func AllFaultKinds() []string {
 		l = append(l, "shape:"+u)
 	}
 	l = append(l, "text-file", "bak-file", "dir", "dir-named-go", "dangling-symlink-go", "dangling-symlink", "symlink-to-dir-go", "unannotated")
+	// files that sit next to a healthy Go file under the names editors, backup and "atomic write" schemes use
+	for _, sfx := range SiblingSuffixes {
+		l = append(l, "sibling:"+sfx)
+	}
+	if CanDropPrivileges() {
+		// F13: I/O errors the real kernel produces once the tool runs as an unprivileged user
+		l = append(l, "perm:ro", "perm:noread")
+	}
 	return l
+}
+
+var SiblingSuffixes = []string{".tmp", ".bak", "~", ".orig", ".new", ".swp"}
+
+// siblingOf turns a "sibling:<sfx>" entry into a neighbour of one of the healthy Go files already in the plan.
+func siblingOf(r *detsim.Rand, p *Plan, e Entry, kind string) Entry {
+	if len(kind) <= 8 || kind[:8] != "sibling:" {
+		return e
+	}
+	var hs []string
+	for i := range p.Entries {
+		if p.Entries[i].Kind == KGo && p.Entries[i].Break == "" && p.Entries[i].Perm == "" {
+			hs = append(hs, p.Entries[i].Name)
+		}
+	}
+	if len(hs) == 0 {
+		return e
+	}
+	e.Name = hs[r.Intn(len(hs))] + kind[len("sibling:"):]
+	return e
 }
 
 // faultEntry builds the bad entry of a kind at a position.
@@ -41,8 +71,14 @@ func faultEntry(r *detsim.Rand, kind, pos string, i int) Entry {
 	switch {
 	case len(kind) > 6 && kind[:6] == "break:":
 		return Entry{Name: name, Kind: KGo, File: GenHealthy(r, "pb", true), Break: kind[6:], Arg: r.Intn(1 << 16)}
+	case len(kind) > 5 && kind[:5] == "perm:":
+		return Entry{Name: name, Kind: KGo, File: GenHealthy(r, "pb", true), Perm: kind[5:]}
 	case len(kind) > 6 && kind[:6] == "shape:":
 		return Entry{Name: name, Kind: KGo, File: GenUnexpected(r, "pb", kind[6:]), Shape: kind[6:]}
+	}
+	if len(kind) > 8 && kind[:8] == "sibling:" {
+		// the caller renames it after a healthy neighbour (siblingOf)
+		return Entry{Name: name + kind[8:], Kind: KText, File: GenHealthy(r, "pb", true), Shape: kind}
 	}
 	switch kind {
 	case "text-file":
@@ -91,11 +127,13 @@ func SystematicC19(seed uint64) []*Plan {
 						p.Entries = append(p.Entries, healthyEntry(r, nameAt(hp, 10+i), true))
 					}
 					bad := faultEntry(r, k, pos, 0)
+					bad = siblingOf(r, p, bad, k)
 					p.Entries = append(p.Entries, bad)
 					if two == 1 {
 						k2 := kinds[(ki+1+n%5)%len(kinds)]
 						pos2 := poss[(n+1)%3]
 						b2 := faultEntry(r, k2, pos2, 1)
+						b2 = siblingOf(r, p, b2, k2)
 						p.Entries = append(p.Entries, b2)
 						p.Case += "+" + k2 + "@" + pos2
 					}
@@ -118,13 +156,17 @@ func SystematicC19(seed uint64) []*Plan {
 var globs = []string{"*.go", "*.pb.go", "a*.go", "[m-z]*.go", "*", "*.g?", "z*"}
 
 func genRun(r *detsim.Rand, names []string) Event {
+	form := 0
+	if r.Chance(1, 3) {
+		form = 1 + r.Intn(3) // how the path is written on the command line
+	}
 	switch r.Weighted([]int{4, 3, 3}) {
 	case 0:
-		return Event{Op: EvRunD}
+		return Event{Op: EvRunD, Form: form}
 	case 1:
-		return Event{Op: EvRunP, Target: globs[r.Intn(len(globs))]}
+		return Event{Op: EvRunP, Target: globs[r.Intn(len(globs))], Form: form}
 	}
-	return Event{Op: EvRunF, Target: names[r.Intn(len(names))]}
+	return Event{Op: EvRunF, Target: names[r.Intn(len(names))], Form: form}
 }
 
 // GenC19 draws a random directory with a random subset of bad entries and 1..3 invocations.
@@ -138,7 +180,8 @@ func GenC19(r *detsim.Rand) *Plan {
 		pos := poss[r.Intn(3)]
 		var e Entry
 		if r.Chance(2, 5) {
-			e = faultEntry(r, kinds[r.Intn(len(kinds))], pos, i)
+			k := kinds[r.Intn(len(kinds))]
+			e = siblingOf(r, p, faultEntry(r, k, pos, i), k)
 		} else {
 			e = healthyEntry(r, nameAt(pos, i), r.Chance(4, 5))
 		}
